@@ -166,6 +166,54 @@ def runAtten (j : Json) : P Json := do
   let e ← runAuthz j'
   pure (Json.mkObj [("base", base), ("ext", e)])
 
+def authzOut (res : AuthzResult) : List (String × Json) :=
+  match res with
+  | .ok p => [("r", "ok"), ("p", p)]
+  | .noMatchingPolicy f => [("r", "nomatch"), ("failed", failedOut f)]
+  | .unauthorized k p f => [("r", "unauth"), ("pk", if k == .allow then "allow" else "deny"), ("p", p), ("failed", failedOut f)]
+  | .runError e => [("r", Json.str (runErrOut e))]
+  | .exprError _ => [("r", "exec")]
+
+def runLimits (j : Json) : P Json := do
+  if let some (.bool true) := fieldOpt j "time" then
+    return Json.mkObj [("skip", Json.bool true)]
+  let pool ← parsePool (← field j "pool")
+  let blocks ← (← getArr (← field j "blocks")).mapM parseBlock
+  let az ← parseAz (← field j "az")
+  let lj ← field j "limits"
+  let lim : Limits := ⟨← getNat (← field lj "f"), ← getNat (← field lj "i"), none⟩
+  let calls ← (← getArr (← field j "calls")).mapM fun c => do
+    match c with
+    | .str "authorize" => pure (none : Option (Bool × QRule))
+    | _ =>
+      let q ← field c "query"
+      pure (some ((← (← field q "all").getBool?), ← parseQRule (← field q "q")))
+  let (tbl, blocksI, azI) := internCase pool blocks az
+  let (tbl, callsI) := calls.foldl (fun (acc : ITable × List AzCall) c =>
+    match c with
+    | none => (acc.1, acc.2 ++ [AzCall.authorize])
+    | some (all, q) =>
+      let (t', q') := internQRule pool acc.1 q
+      (t', acc.2 ++ [AzCall.query all q'])) (tbl, [])
+  let syms := tbl.syms
+  if blocksI.any (fun b => b.rules.any fun q => !headVarsBound q.rule) then
+    return Json.mkObj [("calls", Json.arr #[Json.mkObj [("r", "invalid-rule")]])]
+  let get := syms.getSymbol
+  -- step through the calls, reporting the counters after each
+  let rec go (s : AzState) (cs : List AzCall) (acc : List Json) (amb : Bool) : List Json × Bool :=
+    match cs with
+    | [] => (acc, amb)
+    | c :: rest =>
+      let (s', o) := s.call syms blocksI azI lim c
+      let amb' := amb || (s'.done && caseAmbiguous syms s'.facts blocksI azI)
+      let base : List (String × Json) := match o with
+        | .decision r => authzOut r
+        | .answer fs => [("r", "answer"), ("facts", Json.arr (fs.map (fun of => factStr get of.2)).toArray)]
+        | .exprError _ => [("r", "exec")]
+      go s' rest (acc ++ [Json.mkObj (base ++ [("iterations", (s'.iterations : Json)), ("fact_count", (s'.facts.length : Json))])]) amb'
+  let (outs, amb) := go (AzState.init blocksI azI) callsI [] false
+  pure (Json.mkObj ([("calls", Json.arr outs.toArray)] ++ (if amb then [("amb", Json.bool true)] else [])))
+
 def handle (line : String) : String :=
   match Json.parse line with
   | .error e => (Json.mkObj [("driver_error", s!"parse: {e}")]).compress
@@ -178,6 +226,7 @@ def handle (line : String) : String :=
       | "authz" => runAuthz j
       | "atten" => runAtten j
       | "determ" => runAuthz j
+      | "limits" => runLimits j
       | _ => throw s!"unknown op {op}"
     match r with
     | .ok o => o.compress
